@@ -671,7 +671,7 @@ impl<'a, S: BitmapSlice> ZeroCopyReader for ZcReader<'a, S> { }
            splices=[E0, ('let out = OutHeader {', 'before',
                          'proof { assert(data_writer.0.buf@ =~= self.fs.res_read_data()); assert(count == self.fs.res_read_data().len()); assert(count <= MAX_REPLY_CAP); }'),
                     ('ctx.w\n                    .commit(Some(&data_writer.0))', 'before',
-                     'proof { lemma_read_reply_frame(ctx.in_header.unique, self.fs.res_read_data()); assert(commit_bytes(&ctx.w, Some(&data_writer.0)) =~= hdr_bytes(16 + self.fs.res_read_data().len(), 0, ctx.in_header.unique) + self.fs.res_read_data()); }')],
+                     'proof { lemma_read_reply_frame(ctx.in_header.unique, self.fs.res_read_data()); assert(commit_bytes(&ctx.w, Some(&data_writer.0)) =~= hdr_bytes(16 + self.fs.res_read_data().len(), 0, ctx.in_header.unique) + self.fs.res_read_data()); } // [C03.read.bytes][C01.read.frame]')],
            props=['C01'], canary=True),
     ]
     SIGREQ = [('&mut dyn FsCacheReqHandler', '&mut FsCacheReq')]
@@ -683,7 +683,7 @@ impl<'a, S: BitmapSlice> ZeroCopyReader for ZcReader<'a, S> { }
                'forall|p: &InitParams| on_init_params.requires((p,))',
                # the version recorded for later requests is the client's (the store is an effect on &self: capability)
                '''ctx.r.rem@.len() >= 16 ==> forall|v: ServerVersion| ({ let a = <InitIn as ByteValued>::sdecode(ctx.r.rem@.subrange(0, 16)); v.major == a.major && v.minor == a.minor }) ==> #[trigger] self.vers.may_store(v) // [C12.vers]'''],
-           external_body=EXT('init'), props=['C12'], canary=not EXT('init'), gtag_props={'cap': ['C12'], 'emit': ['C12'], 'frame': ['C12']},
+           external_body=EXT('init'), props=['C12'], canary=not EXT('init'), gtag_props={'cap': ['C12'], 'emit': ['C12'], 'frame': ['C12']}, extra_props=['C12'],
            splices=[('^', 'after', 'let ghost a0 = <InitIn as ByteValued>::sdecode(rem0.subrange(0, 16)); proof { reveal(errno_reply); assert((1u32 << 20) == 0x10_0000u32) by (bit_vector); }'),
                     E0,
                     ('return ctx.reply_ok(Some(out), None);', 'before',
@@ -744,7 +744,8 @@ impl<'a, S: BitmapSlice> ZeroCopyReader for ZcReader<'a, S> { }
            splices=[E0, ('^', 'after', 'proof { reveal(errno_reply); }'),
                     ('let out = OutHeader {', 'before', 'proof { assert(cursor.buf@ =~= self.fs.res_dir_data()); }'),
                     ('ctx.w.commit(Some(&cursor))', 'before',
-                     'proof { lemma_read_reply_frame(ctx.in_header.unique, self.fs.res_dir_data()); assert(commit_bytes(&ctx.w, Some(&cursor)) =~= hdr_bytes(16 + self.fs.res_dir_data().len(), 0, ctx.in_header.unique) + self.fs.res_dir_data()); }')]),
+                     'proof { lemma_read_reply_frame(ctx.in_header.unique, self.fs.res_dir_data()); assert(commit_bytes(&ctx.w, Some(&cursor)) =~= hdr_bytes(16 + self.fs.res_dir_data().len(), 0, ctx.in_header.unique) + self.fs.res_dir_data()); } // [C03.readdir.bytes][C01.readdir.frame]')],
+           gtag_props={'cap': ['C02', 'C03', 'C16']}),
         Fn(SYNC, SRV, 'readdir', requires=handler_contract('readdir', reply_extra='ctx.w.cap@, '), props=['C01']),
         Fn(SYNC, SRV, 'readdirplus', requires=[c.replace('want_readdir(', 'want_readdirplus(') for c in handler_contract('readdir', reply_extra='ctx.w.cap@, ')], props=['C01']),
         Fn(SMOD, SRV, 'remap_ctx_ids', sig_subst=[('SrvContext<F, S>', "SrvContext<'_, F, S>")],
